@@ -29,13 +29,12 @@ PROPS['C21']['explanation'] += (' C21_grouped_volumes_unique_key: after any hist
 PROPS['C21']['rule'] += (' For every volumes variant with groupBy >= 1 the content of the full listing is compared with the ungrouped listing of the same query aggregated by truncated address '
                          '(grouped_content_checked in the distribution).')
 
-PROPS['C17']['theorems'] += ['C17_account_metadata_as_of_total', 'C17_filter_metadata_as_of', 'C17_filter_history_off_partial', 'C17_volumes_filter_history_off',
-                             'C17_volumes_filter_history_off_refuted']
+PROPS['C17']['theorems'] += ['C17_account_metadata_as_of_total', 'C17_filter_metadata_as_of', 'C17_filter_history_off', 'C17_volumes_filter_history_off']
 PROPS['C17']['explanation'] += (' Metadata FILTERS at a point in time (volumes, aggregated balances, accounts): the metadata column the WHERE runs on (Reads.vol_meta / agg_meta / ar_meta) is '
                                 'proved, with ACCOUNT_METADATA_HISTORY = SYNC and for every address, to be the metadata the account had in the state reached at t (C17_account_metadata_as_of_total, '
-                                'C17_filter_metadata_as_of). With the feature DISABLED the full statement ("returns the current metadata") holds for aggregated balances, accounts and volumes '
-                                'without a window (C17_filter_history_off_partial) and is REFUTED for volumes with a PIT or OOT: the handler reads the (then empty) history table, every account '
-                                'carries \'{}\' (C17_volumes_filter_history_off, witness C17_volumes_filter_history_off_refuted, replayed on the real code: KF-C17-volumes-metadata-filter-history-off). '
+                                'C17_filter_metadata_as_of). With the feature DISABLED the full statement ("returns the current metadata") is a theorem for all three handlers, any window (C17_filter_history_off, '
+                                'C17_volumes_filter_history_off); for volumes with a PIT or OOT it was false of the code (the handler read the empty history table: every account carried \'{}\'), '
+                                'found by this tie and repaired in /repo by f445e43 (known_findings.d/reads.json, fixed); the monitor has no exemption for it. '
                                 'The reads tie compares the filtered reads with the model (volq / aggq / accsq probes) and runs the monitor [metadata-filter-as-of] (replays the accepted '
                                 'metadata writes up to t, filters the UNFILTERED listing read through the real code).' + READS2_PROBES)
 
@@ -50,6 +49,6 @@ PROPS['C20']['explanation'] += (' "With or without a point in time" for metadata
                                 '(C20_metadata_filter_sql: valid, emitted condition two-valued and equal to msat of the column; C20_metadata_filter_list) and proves over all histories split at t that '
                                 'the filtered listing at t selects exactly the rows whose account satisfied the filter AT t (C20_pit_*_metadata_filter; C20_filter_then_group: grouping happens after '
                                 'the WHERE). Third tie: model = real stack on volumes / aggregated balances / accounts filtered by metadata at instants around every account-metadata write; monitor '
-                                '[metadata-filter-as-of] independent of the model. Known finding on the unchanged tree: KF-C20-volumes-metadata-filter-history-off (volumes + PIT/OOT + metadata '
-                                'filter with ACCOUNT_METADATA_HISTORY DISABLED sees no metadata).')
+                                '[metadata-filter-as-of] independent of the model. A defect found by this tie (volumes + PIT/OOT + metadata filter with ACCOUNT_METADATA_HISTORY DISABLED saw no '
+                                'metadata) was repaired in /repo by f445e43 (KF-C20-volumes-metadata-filter-history-off, fixed).')
 PROPS['C20']['level_text'] += (' Metadata filters at a point in time (volumes, aggregated balances, accounts) select on the metadata as of t: theorems over all histories + tie on the real stack.')
